@@ -189,6 +189,20 @@ theorem bad_sth_response_is_error (P : Prims) (verifier : Option Key) (r : Rsp S
     · simp [toSignedTreeHead, h]
     · simp [ht, hk, hv]
 
+/-- in particular: octets after the DigitallySigned of `tree_head_signature` ("trailing TLS bytes"), or a DigitallySigned
+cut short, make get-sth fail with the status — whatever the rest of the response says and whoever signed it. -/
+theorem sth_trailing_or_truncated_signature_is_error (P : Prims) (verifier : Option Key) (r : Rsp SthBody) (b : SthBody)
+    (hb : r.body = some b) (good : Bytes) (ds : DigitallySigned) (hg : dsExact good = some ds)
+    (h : (∃ t, t ≠ [] ∧ b.sig = good ++ t) ∨ (∃ k, k < good.length ∧ b.sig = good.take k)) :
+    getSTH P verifier r = .rspErr r.status := by
+  apply bad_sth_response_is_error
+  refine Or.inr (Or.inr ⟨b, hb, Or.inr (Or.inl ?_)⟩)
+  rcases h with ⟨t, ht, e⟩ | ⟨k, hk, e⟩
+  · rw [e]; exact dsExact_trailing good t ds hg ht
+  · rw [e]; exact dsExact_truncated good ds hg k hk
+
+example : dsExact [4, 3, 0, 2, 7, 7] = some ⟨4, 3, [7, 7]⟩ ∧ dsExact ([4, 3, 0, 2, 7, 7] ++ [0]) = none ∧ dsExact ([4, 3, 0, 2, 7, 7].take 5) = none := by decide
+
 /-- every outcome of get-sth is an STH, an error with the status, or — only for a nil key pointer — a panic -/
 theorem getSTH_outcomes (P : Prims) (verifier : Option Key) (r : Rsp SthBody)
     (hn : ∀ key, verifier = some key → key.isNil = false) :
